@@ -110,9 +110,32 @@ func vpH_C18_refuse() {
 		_, err = CopyItemProperties(to, nil)
 	case 2:
 		why = "other-id"
-		vpSetField(from, 0, 0, 'j') // a different id
+		// a different id: another letter, or an id that shares host and a prefix/suffix of the path
+		// with to's (a longer path, a shorter one, the bare host, another query) - none is equivalent
+		tid := string(to.GetID())
+		switch vpChoice(6) {
+		case 0:
+			vpSetField(from, 0, 0, 'j')
+		case 1:
+			vpSetID(from, IRI(tid+"0"))
+		case 2:
+			vpSetID(from, IRI(tid[:len(tid)-1]))
+		case 3:
+			vpSetID(from, IRI("https://h.ex"))
+		case 4:
+			vpSetID(from, IRI(tid+"?id=2"))
+			vpSetID(to, IRI(tid+"?id=1"))
+			old = vpCloneItem(to)
+		default:
+			vpSetID(from, IRI(tid+"/outbox"))
+		}
 		fromSnap = vpCloneItem(from)
 		_, err = CopyItemProperties(to, from)
+		if vpBool() { // and the other way round
+			_, err2 := CopyItemProperties(from, to)
+			vpAssert("refuse/error/other-id-reverse", err2 != nil)
+			vpDiffItems("refuse/untouched/other-id-reverse", fromSnap, from, nil)
+		}
 	case 3:
 		why = "other-type"
 		_ = OnObject(from, func(o *Object) error { o.Type = VideoType; return nil })
